@@ -2,6 +2,7 @@
 frame passes a sanitiser that removes both CR and LF."""
 from ..cfg import Body, name_matches
 from ..report import where
+from ..facts import in_module
 
 LEVEL = "other"
 TRANSFORM = ("replace", "replacen", "retain", "filter", "map", "escape_default", "escape_debug", "escape_unicode",
@@ -176,7 +177,7 @@ def run(ctx, F, cg):
             ctx.ok("R22b", "encode|coverage", "explicit arm for each of %s" % sorted(variants))
     # ---- R22c: the server writes only encoder output (or bytes forwarded from another node) --------
     ctx.rule("R22c", "every write_all in the connection loop sends a buffer filled by RespValue::encode or returned by Proxy::forward")
-    hcs = [r for p, r in F.fns.items() if p.startswith("samyama::protocol::") and any(("AsyncWriteExt" in c or "tokio::net" in c) and c.rsplit("::", 1)[-1] in ("write_all", "write", "write_buf", "write_all_buf", "try_write", "write_vectored") for c in r["calls"])]
+    hcs = [r for p, r in F.fns.items() if in_module(p, "samyama::protocol::") and any(("AsyncWriteExt" in c or "tokio::net" in c) and c.rsplit("::", 1)[-1] in ("write_all", "write", "write_buf", "write_all_buf", "try_write", "write_vectored") for c in r["calls"])]
     if not any(r["path"].startswith("samyama::protocol::server::handle_connection::") for r in hcs):
         ctx.anchor_failure("R22c", "protocol::server::handle_connection coroutine writing to the socket")
     nw = 0
